@@ -4,6 +4,7 @@ package main
 // random numbers under a replaceable random source, the AES-CBC transform, algorithm <-> transform mapping.
 
 import (
+	"bytes"
 	"crypto/rand"
 	"errors"
 	"fmt"
@@ -369,6 +370,7 @@ func actCipherNew(e *Env, a J) J {
 	obs["hasobj"] = c != nil && err == nil
 	if err == nil {
 		e.objs["cipher:"+gs(a, "name")] = c
+		e.objs["cipherkey:"+gs(a, "name")] = octOf(gox(a, "key"))
 	}
 	return obs
 }
@@ -392,7 +394,24 @@ func actCipherEncrypt(e *Env, a J) J {
 		obs["ct"] = octOf(ct)
 		obs["ctlen"] = len(ct)
 		if len(ct) >= 16 {
-			obs["iv"] = octOf(ct[:16])
+			iv := ct[:16]
+			obs["iv"] = octOf(iv)
+			if r != nil { // the IV is made of octets the random source delivered during this call
+				obs["ivdelivered"] = bytes.Contains(r.delivered, iv)
+			}
+			seen, _ := e.objs["ivs"].(map[string]bool)
+			if seen == nil {
+				seen = map[string]bool{}
+				e.objs["ivs"] = seen
+			}
+			obs["ivrepeat"] = seen[string(iv)]
+			seen[string(iv)] = true
+			// echo oracle for the trace specification: textbook CBC decryption under the object's key
+			if key, ok := e.objs["cipherkey:"+gs(a, "obj")].(Oct); ok && (len(ct)-16)%16 == 0 {
+				if full, derr := cbcDecrypt(key, iv, ct[16:]); derr == nil {
+					obs["oracle"] = J{"key": key, "iv_span": []any{0, 16}, "ct_span": []any{16, len(ct)}, "pt": full}
+				}
+			}
 		}
 	}
 	return obs
